@@ -43,6 +43,15 @@ def mc_simple(module, consts, invariants, control=None):
 
 MC_LISTS = mc_simple("MC_Lists", None, ["WellFormedList", "FromCanonicalFile", "Vectors"])
 MC_GATES = mc_simple("MC_Gates", 'BytesMode = "padded" Window = 5000', ["EntGateAgrees", "CountGateAgrees", "SizesCorrespond"])
+def mc_kdf(tier, seed):
+    """thorough tier: the 2048-iteration structure of PBKDF2 evaluated from the TLA+ definition (only HMAC overridden)"""
+    if tier != "thorough":
+        return []
+    cfg = "SPECIFICATION Spec\nCONSTANTS Seed0 = %d NCases = 16\nINVARIANTS SeedByDefinitionAgrees\nCHECK_DEADLOCK FALSE\n" % (seed % 1000)
+    return [vlib.run_mc("MC_Kdf", cfg, timeout=3000)]
+
+
+MC_UNICODE = mc_simple("MC_Unicode", None, ["DecompositionIsNormal", "MarksAreOrdered", "SeparatorsNormalise"])
 MC_NAMES = mc_simple("MC_Names", 'StringerTable = "full10" Window = 70000', ["NoPanic", "NamesAgree"],
                      control=('StringerTable = "stale9" Window = 12', "NamesAgree"))
 
@@ -230,13 +239,13 @@ RECIPES = {
     "C16": dict(mc=[MC_NAMES], record=gen_recorder("C16"), props=["C16"], exhaustive=True,
                 speaks=lambda e: e.get("op") == "String",
                 rule="Language(N).String() for every N in -70000..70000 and 42 extreme values; distinct by N"),
-    "C04": dict(mc=[], record=gen_recorder("C04"), props=["C04"], speaks=lambda e: e.get("op") == "ToSeed",
+    "C04": dict(mc=[MC_UNICODE, mc_kdf], record=gen_recorder("C04"), props=["C04"], speaks=lambda e: e.get("op") == "ToSeed",
                 rule="MnemonicToSeed on the product of argument classes (empty, ASCII, list words in NFC/NFD/NFKC/NFKD, full-width, compatibility characters, reordering marks, "
                      "passphrases beginning with marks, lengths around the 128-byte HMAC block, 4096 bytes, invalid sentences, random Unicode 14 text); distinct by (mnemonic, passphrase)"),
-    "C10": dict(mc=[], record=gen_recorder("C10"), props=["C10"], speaks=lambda e: e.get("op") == "Check" and "group" in e,
+    "C10": dict(mc=[MC_UNICODE, MC_LISTS], record=gen_recorder("C10"), props=["C10"], speaks=lambda e: e.get("op") == "Check" and "group" in e,
                 rule="groups of spellings with equal NFKD (established by TLC): every word of the seeded languages' lists inside valid sentences in asis/NFC/NFD/NFKC/NFKD/full-width "
                      "forms with U+0020/U+3000/U+00A0/U+2003/mixed separators, invalid sentences, random Unicode strings; distinct by (input, language)"),
-    "C11": dict(mc=[], record=gen_recorder("C11"), props=["C11"], speaks=lambda e: e.get("op") == "ToSeed" and "group" in e,
+    "C11": dict(mc=[MC_UNICODE], record=gen_recorder("C11"), props=["C11"], speaks=lambda e: e.get("op") == "ToSeed" and "group" in e,
                 rule="groups of (mnemonic, passphrase) spellings with equal NFKD (established by TLC): covering sentences in five forms and both separators, "
                      "compatibility/combining passphrases, random Unicode; distinct by (mnemonic, passphrase)"),
     "C05": dict(mc=[mc_codec(False)], record=gen_recorder("C05"), props=["C05"], speaks=valid_enc,
@@ -369,6 +378,19 @@ def record_c06(binary, tier, seed):
         for a in range(1, need):
             steps.append({"op": "new", "n": w, "lang": (a + seed) % 10, "script": [{"k": a, "err": ""}, {"k": need - a, "err": ""}], "after": "data", "fill": 9})
         steps.append({"op": "new", "n": w, "lang": seed % 10, "script": [{"k": 1, "err": ""}] * need, "after": "data", "fill": 9})
+        steps.append({"op": "cut"})
+    # the model's "custom" failure stands for any error that is not EOF: concretised with the kinds of error real
+    # sources return (temporary ones included), once followed by more data and once by the same failure for ever
+    kinds = ["EINTR", "EAGAIN", "temporary", "wrappedEOF", "noprogress", "shortbuffer", "closedpipe", "deadline", "custom", "EOF", "UEOF"]
+    for w in (12, 15, 18, 21, 24):
+        need = w + w // 3
+        for k in (0, 1, 5, need - 1):
+            for kind in kinds:
+                for after in ("data", kind):
+                    pre = [{"k": k, "err": ""}] if (k and rng.random() < 0.5) else []
+                    sc = pre + [{"k": 0 if pre else k, "err": kind}]
+                    steps.append({"op": "new", "n": w, "lang": rng.randrange(10), "script": sc, "after": after, "fill": 7})
+                    nrun += 1
         steps.append({"op": "cut"})
     steps.append({"op": "swap", "kind": "os"})
     d = vlib.scratch("verif-tr-")
